@@ -12,7 +12,7 @@ CHECKS = {
         text='Seeded search over histories of nested, still-open unifications on the real engine, each step compared with an independent '
              'Robinson unifier holding an explicit substitution stack: outcome, equality of both sides at the yield, most-generality and '
              'aliasing (canonical form of every pool variable), symmetry, at-most-once. Sampling, not proof; the right level because the '
-             'property quantifies over term pairs x stacks of live generators, which only a driver that owns the generators can build.',
+             'property quantifies over term pairs x stacks of live generators, which only a driver that owns the generators can build. A tenth of the histories use big terms (lists up to 130 elements, 13-70-argument structures), terms kept and reused by the consumer, clear() under the open unifications and unifications whose stack overflows half-way.',
         note='Trusts the 150-line model unifier and the observer (reads Functor._name/_args); cyclic cases are skipped as unspecified; CPython 3.12 only.'),
     'C03': dict(
         category='fault_enumeration', design_ref='DESIGN.md section 4, C03',
@@ -28,8 +28,8 @@ CHECKS = {
         technique='deterministic simulation: seeded operation histories (all routes and goal forms, retract abandoned/suspended at arbitrary points) against an ordered-list reference model with full read-back after every step',
         text='Seeded histories of asserta/assertz/assert_fact/retract/retractall/clear/query over eight predicates (arities 0-3, two never asserted), '
              'every op through a seeded route (API, compiled wrapper, compiled inline goal) and form (inline or bound variable); retract generators '
-             'are exhausted, abandoned after k answers by close or drop, or kept suspended while other predicates are changed. Each op result and, '
-             'after every op, the complete contents of all predicates are compared with a list model; any exception is a violation.',
+             'are exhausted, abandoned after k answers by close or drop, or kept suspended while other predicates are changed (or the engine is cleared); stores of up to 70 facts, values incl. plain constants of several types, improper lists; goal objects reused with new bindings. Each op result and, '
+             'after every op (in a third of the runs only every 4th op or at the end: a read-back can repair what an op left half-done), the complete contents of all predicates are compared with a list model, with all arguments unbound and with each argument bound to every value seen there; any exception is a violation.',
         note='Ground facts only and no same-predicate mutation during an enumeration (those are C13/C14), so every reading of the statement gives the same lists. Trusts the 60-line list model.'),
     'C08': dict(
         category='exploration', design_ref='DESIGN.md section 4, C08',
@@ -38,7 +38,7 @@ CHECKS = {
              'name; string or fake file; overwrite on/off), failing loads of six kinds, register_function in all three arity styles (also under '
              'reserved API names), assert_fact and clear. After every op, 14 name/arity pairs (defined, undefined, sibling arities, reserved) are '
              'read back and compared with a definition-table model (facts first, exact arity, variadic only as fallback, chain in load order with '
-             'per-definition cuts, late binding); a failing load must raise and leave every read-back unchanged.',
+             'per-definition cuts, late binding), directly, through call/1, call/2 on a kept goal term and findall/3, and with the first argument bound when a predicate holds many facts; a failing load must raise and leave every read-back unchanged.',
         note='The model follows the code where the statement is silent (register_function on an existing key replaces the chain). File access of load_script_from_file goes through an in-memory fake; everything else is real.'),
     'C13': dict(
         category='exploration', design_ref='DESIGN.md section 4, C13',
@@ -47,7 +47,7 @@ CHECKS = {
              'pool variables at arbitrary points (bound before, after, through chains, inside structures; four assert routes incl. compiled code '
              'with the goal in a bound variable). Every answer of every use is compared with a model in which ASSERT stores the fully resolved term with '
              'fact-local variables and each use renames it apart - over the pattern and over every pool variable, so any aliasing between a fact, its '
-             'uses and the asserting context is visible.',
+             'uses and the asserting context is visible. Stores may be prefilled with 33-70 unrelated facts; selective retractall, asserts and uses that overflow the stack half-way are part of the histories.',
         note='A use starts at its first next(); frames end LIFO; matches that would need cyclic terms end the run without verdict. Trusts model unifier + 60-line store model.'),
     'C14': dict(
         category='exploration', design_ref='DESIGN.md section 4, C14',
@@ -55,7 +55,7 @@ CHECKS = {
         text='A seeded scheduler interleaves up to three simultaneously suspended enumerations (query or retract, any cursor position) with asserta/'
              'assertz/retract/retractall/clear and the compiled failure-driven update idioms on the same predicate; half of the mutations are aimed at the '
              'record next to a suspended cursor. Every step and, after every event, the whole store are compared with a snapshot model; the update '
-             'idioms must terminate within a stated number of executed lines (deterministic liveness verdict).',
+             'idioms (plain failure-driven loops and the same loops driven by findall/3) must terminate within a stated number of executed lines, growing with the store (deterministic liveness verdict).',
         note='A goal starts at its first next(); ground facts only. Trusts the snapshot model (about 100 lines). Liveness bound 20000 lines against < 1500 needed.'),
     'C15': dict(
         category='exploration', design_ref='DESIGN.md section 4, C15',
@@ -100,7 +100,7 @@ CHECKS['C04'] = dict(
          'identity, suspended query generators) under back-to-back, op-level and thread schedules; in thread mode each engine runs on a real thread '
          'and every executed line of engine, compiler pipeline and generated code is a pre-emption point at which a seeded scheduler may move the '
          'baton (decisions recorded, replayable, shrinkable). Each engine\'s observation log must equal the log of its history run alone in a pristine '
-         'forked process. Same-engine mode interleaves next/close/drop of 2-4 queries over disjoint variables on one engine against their solo answers.',
+         'forked process; a thread that waits for something a parked engine holds is the verdict engine-blocked. History flavours: registration-heavy, 70-130 suspended queries, 13-ary facts, facts of plain constants, shared file-name labels. Same-engine mode interleaves next/close/drop of 2-4 queries over disjoint variables on one engine against their solo answers.',
     note='Line-granular, not bytecode-granular pre-emption; never pre-empts inside the ANTLR runtime. Self-referential oracle: exceptions are outcomes. evaluate_bounded excluded as the statement says.')
 
 NOT_APPLICABLE = [
